@@ -101,6 +101,55 @@ def c13_extra(valid, rnd):
     return out
 
 
+def transport_pairs(valids, rnd, tier):
+    """C02: a LARGE rules reply (2500 rules, > 100 kB: more than one block of a bzip2 stream written with 100 kB blocks)
+    once as an uncompressed Source split and once as a bzip2-compressed one (levels 1 and 9), the rest of the exchange
+    unchanged: the response must not depend on the transport."""
+    import bz2, zlib
+    out = []
+    for v in valids:
+        c = v.case()
+        if v.notwf or not v.want.startswith("OK") or not c.args[1].startswith("S:") or c.args[1] == "S:240" or not c.script or c.script[0] == "X":
+            continue
+        seg = v.seg()
+        ch = [int(x) for x in v.tags["CH"].split(",")]
+        if seg[2] == 0 or c.args[2][1] == "s":
+            continue
+        ds = c.script[0]
+        start = seg[0] + seg[1]
+        n = 2500
+        payload = b"\xff\xff\xff\xffE" + n.to_bytes(2, "little") + b"".join(
+            f"sv_rule_{k:05d}".encode() + b"\0" + f"value {k * 7919 % 10007} of rule {k}".encode() + b"\0" for k in range(n))
+
+        def split(body, sid, compressed):
+            chunks = [body[i:i + 1200] for i in range(0, len(body), 1200)]
+            frags = []
+            for i, chunk in enumerate(chunks):
+                head = b"\xfe\xff\xff\xff" + sid.to_bytes(4, "little") + bytes([len(chunks), i]) + (1248).to_bytes(2, "little")
+                if compressed and i == 0:
+                    head += len(payload).to_bytes(4, "little") + (zlib.crc32(payload) & 0xFFFFFFFF).to_bytes(4, "little")
+                frags.append(head + chunk)
+            return frags if len(chunks) <= 255 else None
+
+        plain = split(payload, 91, False)
+        if plain is None:
+            continue
+        a = v.case()
+        a.script[0] = ds[:start + ch[2]] + plain + ds[start + seg[2]:]
+        for level in ((1, 9) if tier == "thorough" else (1,)):
+            z = bz2.compress(payload, level)
+            comp = split(z, 0x80000000 | 92, True)
+            if comp is None:
+                continue
+            b = v.case()
+            b.script[0] = ds[:start + ch[2]] + comp + ds[start + seg[2]:]
+            b.opts = b.opts + [f"bz={z.hex()}:{payload.hex()}"]
+            out.append((a.line(f"{v.id}tpP{level}"), b.line(f"{v.id}tpZ{level}"), f"2500 rules, bzip2 level {level} ({len(z)} bytes compressed)"))
+        if len(out) >= (2 if tier == "quick" else 8):
+            break
+    return out
+
+
 def fragment_groups(case):
     """C08: [(conn, start, count)] of the split datagrams of one reply: consecutive datagrams with the split header
     and the same split id whose packet numbers keep rising (a new reply may reuse the id)"""
